@@ -7,6 +7,27 @@ META = {
   "technique": "contract-based deductive verification: pyvc AST->VC generator + z3 (all obligations), run-time contract twin for replay",
  },
 }
+TECH = "contract-based deductive verification: pyvc AST->VC generator + z3 (sidecar contracts, loop invariants, ghost state, induction lemmas); run-time contract twin on the real code for replay / bounded stand-ins"
+META["C01"] = {
+  "text": "SupervisedOPF.fit, _find_prototypes, Subgraph.__init__/_build (with Node.__init__ and all property setters inlined) and the whole heap are under contract; the Dijkstra-style invariants (monotone removal, Bellman closure over all ordered pairs, predecessor attains max(cost(pred), d), label inherited, conquest order = inverse of a ghost rank, sorted by cost) are inductive and every obligation generated from the real source is discharged by z3 for all training-set sizes, label assignments, tie patterns, both weight sources (metric / pre-computed matrix through idx). The postcondition is the property statement: closure + attainment + acyclicity by strictly earlier predecessor + permutation sorted by cost.",
+  "design_ref": "DESIGN.md §3 C01",
+  "note": "Trusted: VC generator, z3, float order modelled over reals (only max/compare/copy on costs), weights as uninterpreted DFN/PRE with the statement's hypotheses as preconditions, cardinality lemmas by emitted induction queries; the final step from (closure, attainment along an acyclic predecessor chain) to 'minimum over all paths' is a two-line pencil argument.",
+  "technique": TECH}
+META["C02"] = {
+  "text": "Deductive part: contracts on every function prototype selection runs through are discharged (existence of a prototype for >= 2 classes, frame of _find_prototypes, prototypes keep cost 0 / NIL / own label through fit). The MST characterisation itself (Prim certificate, boundary endpoints) is currently decided by a bounded run-time contract: real fits on generated graphs with n <= 6 compared against all minimum spanning trees; the cut property is cited.",
+  "design_ref": "DESIGN.md §3 C02",
+  "note": "Level `other`: proved clauses and bounded clauses are itemised in the evidence; bounded results are never counted as discharged. Cited, unchecked: a spanning tree built by repeatedly adding a lightest cut-crossing arc is minimum (CLRS Thm 23.1).",
+  "technique": TECH}
+META["C03"] = {
+  "text": "SupervisedOPF.predict (inherited unchanged by the semi-supervised model) is under contract with ghost witnesses: the scan invariant says min_cost is the minimum of max(cost, d) over the prefix of the conquest order and is attained by the tracked sample; the early exit is justified by sortedness; surjectivity of the order turns the prefix into all training samples. All obligations discharged for every forest satisfying fit's postcondition and every query; no symmetry of the metric is assumed.",
+  "design_ref": "DESIGN.md §3 C03",
+  "note": "Trusted: as C01; predict's precondition is a sub-conjunction of fit's proven postcondition (C01); termination of mark_nodes not proved.",
+  "technique": TECH}
+META["C15"] = {
+  "text": "SemiSupervisedOPF.fit is under contract with the same invariants as C01 over labelled + unlabeled nodes; the call to _find_prototypes is checked in the state where only labelled nodes exist; the append loop is verified (fresh Node per unlabeled row, Node.__init__ inlined); prototypes are labelled samples and keep their true label; all obligations discharged. The empty-unlabeled clause is checked relationally on the real code in the bounded channel only.",
+  "design_ref": "DESIGN.md §3 C15",
+  "note": "Trusted: as C01. Bounded only: equality with supervised training for an empty unlabeled set.",
+  "technique": TECH}
 ALL = ["C%02d" % i for i in range(1, 21)]
 NOT_APPLICABLE = []
 def _na():
